@@ -934,6 +934,22 @@ pub fn spaces(tier: Tier) -> Vec<Space> {
             eval_script(&toks, &e, FEW_LEGS, acc, case);
         }));
     }
+    // 1a4. every opcode the library names at every position of every conditional skeleton of up to 3 (4) symbols
+    {
+        let e = env.clone();
+        let holes = super::skeleton_holes(if tier.is_thorough() { 4 } else { 3 });
+        let nh = holes.len() as u64;
+        let ops: Vec<u8> = env.plain_ops();
+        let no = ops.len() as u64;
+        v.push(Space::new("opcode-in-skeleton", nh * no, move |case, acc| {
+            let c = coords(case.idx, &[nh, no]);
+            let (pre, post) = &holes[c[0] as usize];
+            let mut toks: Vec<Tok> = pre.iter().map(|b| Tok::Op(*b)).collect();
+            toks.push(Tok::Op(ops[c[1] as usize]));
+            toks.extend(post.iter().map(|b| Tok::Op(*b)));
+            eval_script(&toks, &e, FEW_LEGS, acc, case);
+        }));
+    }
     // 1b. every ordered pair over the sub-alphabet
     {
         let e = env.clone();
